@@ -1,6 +1,6 @@
 (* GenEqNum.v — number codecs of encode/buffer.go and decode/buffer.go: translated source = model *)
 From Coq Require Import ZArith Bool List Lia ZifyBool ZifyNat.
-From IVG Require Import SF NumCodec Color GoSem Tables GoSrc NumBase NumProofs SFProofs NumSweepD Mul64 GenEqBase GenEqFloat.
+From IVG Require Import SF NumCodec Color Calls Decoder GoSem Tables GoSrc NumBase NumProofs SFProofs NumSweepD Mul64 GenEqBase GenEqFloat.
 Import ListNotations.
 Local Open Scope Z_scope.
 Ltac Zify.zify_post_hook ::= Z.div_mod_to_equations.
@@ -275,4 +275,35 @@ Proof.
       unfold coord_short2 in R2. apply in_range_some in R2 as [_ Ri]. unfold le16. unwrap.
       lor_add. cbn [length]. f_equal. f_equal. repeat (f_equal; try lia).
     + rewrite T2. rewrite go_encode4ByteReal_eq by exact W. reflexivity.
+Qed.
+
+(* ---------- decode.isNaNOrInfinity (the viewBox validity test's building block) ---------- *)
+
+Lemma land_expo_mask f : 0 <= f -> Z.land f 2139095040 = ((f / 8388608) mod 256) * 8388608.
+Proof.
+  intros H. change 2139095040 with (Z.shiftl (Z.ones 8) 23).
+  change 8388608 with (2 ^ 23). change 256 with (2 ^ 8).
+  rewrite <- Z.shiftr_div_pow2, <- Z.land_ones, <- Z.shiftl_mul_pow2 by lia.
+  apply Z.bits_inj'. intros k Hk.
+  rewrite Z.land_spec. rewrite !Z.shiftl_spec by lia.
+  destruct (Z.ltb_spec k 23) as [L|L].
+  - rewrite !(Z.testbit_neg_r _ (k - 23)) by lia. apply andb_false_r.
+  - rewrite Z.land_spec. rewrite Z.shiftr_spec by lia. replace (k - 23 + 23) with k by lia. reflexivity.
+Qed.
+
+Theorem go_isNaNOrInfinity_eq f : wf_f32 f -> go_decode_isNaNOrInfinity f = negb (is_finite F32 f).
+Proof.
+  unfold wf_f32. intros W. unfold go_decode_isNaNOrInfinity. rewrite land_expo_mask by lia.
+  unfold is_finite, decode, expo_of, emax_field. change (prec F32 - 1) with 23. change (ebits F32) with 8.
+  change (2 ^ 23) with 8388608. change (2 ^ 8) with 256.
+  destruct ((f / 8388608) mod 256 =? 256 - 1) eqn:E.
+  - destruct (mant_of F32 f =? 0); cbn [negb]; lia.
+  - destruct ((f / 8388608) mod 256 =? 0); cbn [negb]; lia.
+Qed.
+
+(* ... which is the test the decoder model applies to each viewBox bound *)
+Theorem go_isNaNOrInfinity_model f : wf_f32 f -> go_decode_isNaNOrInfinity f = Decoder.is_nan_or_inf f.
+Proof.
+  unfold wf_f32. intros W. unfold go_decode_isNaNOrInfinity, Decoder.is_nan_or_inf. rewrite land_expo_mask by lia.
+  destruct ((f / 8388608) mod 256 =? 255) eqn:E; lia.
 Qed.
